@@ -39,6 +39,8 @@ def mk_family(name, sub, gen, judge_fn=None, split=None):
     fam.prejudge = tp
     def judge(case, impl, spec):
         other = fam.normal(tp.second.get(case, "MISSING"))
+        if any(("Timeout" in o or o in ("TIMEOUT", "HANG")) for o in (impl, other)):
+            return None          # "as long as no time limit interferes": a run cut by its limit (or by the watchdog) is not compared
         if other != impl:
             return "two processes disagree: %r vs %r" % (impl[:200], other[:200])
         return judge_fn(case, impl, spec) if judge_fn else None
@@ -89,6 +91,25 @@ def gen_gac(tier, rng):
             cases += cs[:: max(1, len(cs) // (3000 if tier == "quick" else 60000))]
     return cases
 
+def gen_propf(tier, rng):
+    """float/mixed propagation to fixpoint (bit-exact families of C06): rows over several variables change two or more
+    variables in one prune call, and the float setters round to the step grid, so the ORDER in which dependants are woken can
+    change the fixpoint itself (seeded change C16c: events drained through a HashSet)"""
+    from . import c06
+    f = [x for x in c06.FAMILIES if x.name == "fprop_exact"][0]
+    cs = f.gen(tier, random.Random(rng.random()))
+    return cs[: (1500 if tier == "quick" else 60000)]
+def gen_searchf(tier, rng):
+    from . import c06
+    f = [x for x in c06.FAMILIES if x.name == "fsearch_exact"][0]
+    cs = f.gen(tier, random.Random(rng.random()))
+    return cs[: (100 if tier == "quick" else 6000)]
+def gen_solvef(tier, rng):
+    from . import c06
+    f = [x for x in c06.FAMILIES if x.name == "fsolve_random"][0]
+    cs = f.gen(tier, random.Random(rng.random()))
+    return cs[: (300 if tier == "quick" else 20000)]
+
 def gen_limits(tier, rng):
     from . import c15
     return c15.gen("quick", rng)[: (1500 if tier == "quick" else 3000)]
@@ -107,6 +128,9 @@ FAMILIES = [
     mk_family("two_process_production_optimise", "msolve", gen_prod, None, split=split_noccorr),
     mk_family("two_process_gac", "gac", gen_gac, None, split=split_first),
     mk_family("two_process_limits", "limits", gen_limits, None, split=split_first),
+    mk_family("two_process_float_propagation", "propf", gen_propf, None, split=split_noccorr),
+    mk_family("two_process_float_search", "searchf", gen_searchf, None, split=split_noccorr),
+    mk_family("two_process_float_solve", "solvef", gen_solvef, None, split=split_noccorr),
 ]
 # known classes of the borrowed families do not concern determinism: a case inside one still has to be
 # identical across processes and equal to the model
